@@ -208,7 +208,7 @@ CLAIMED = {
    note="Validity of the ID tokens themselves is C08; logout bookkeeping (sid) and the composite RPHandler.finalize are checked by the oracle only.",
    technique="Lean 4 proof (invariant by induction over operation histories of a state-store model) + history correspondence with per-step store dump", ref="6 C09"),
  "C12": dict(
-   text="Lean theorems over the whole (finite) cell type of the configuration product — 73 728 cells: every cell whose response placement is "
+   text="Lean theorems over the whole (finite) cell type of the configuration product — 129 024 cells: every cell whose response placement is "
         "defined completes whatever the other nine dimensions are (supported_cells_complete); a flow is refused exactly for the two "
         "response_type x response_mode conflicts (refused_iff), one required by the specification, one not (code_fragment_refused, a known "
         "finding); what a completed flow consists of — calls in order, artefacts, ID-token encryption, refresh token only with offline access "
